@@ -1,6 +1,7 @@
 mod c02;
 mod c06;
 mod c07;
+mod c12;
 mod c13;
 mod c14;
 mod c17;
@@ -44,6 +45,7 @@ fn main() {
     match property.as_str() {
         "C20" => c20::run(&mut ctx),
         "C07" => c07::run(&mut ctx),
+        "C12" => c12::run(&mut ctx),
         "C06" => c06::run(&mut ctx),
         "C02" => c02::run(&mut ctx),
         "C13" => c13::run(&mut ctx),
